@@ -561,6 +561,8 @@ const vreYang2 = `module vrpresence {
     leaf neg { type int8; }
     leaf negcheck { type string; must "../neg < 0"; }
     leaf usize { type uint32; must ". > 5"; }
+    leaf flag { type boolean; }
+    leaf dep { type string; must "../flag = 'false'"; }
     list sub {
       key id;
       leaf id { type uint32; }
@@ -1304,6 +1306,7 @@ func TestVerifReplaySchema2Validation(t *testing.T) {
 		{"must on a list that refers to a child leaf of the entry, satisfied", nil, []pv{{[]string{"cons", "tenant", "t1", "name"}, str("t1")}, {[]string{"cons", "tenant", "t1", "descr"}, str("fine")}}, true, "must_on_a_list_is_per_entry"},
 		{"union of two pattern-restricted strings, value matches neither", nil, []pv{{[]string{"cons", "uni"}, str("zzz")}}, false, "union_member_restrictions_are_checked"},
 		{"leaf-list of strings with a length restriction, an entry too long", nil, []pv{{[]string{"cons", "tags"}, ll("toolong")}}, false, "leaflist_entry_restrictions_are_checked"},
+		{"must \"../flag = 'false'\" with the boolean leaf set to false", nil, []pv{{[]string{"val", "flag"}, &sdcpb.TypedValue{Value: &sdcpb.TypedValue_BoolVal{BoolVal: false}}}, {[]string{"val", "dep"}, str("x")}}, true, "boolean_leaf_compares_as_its_text"},
 		{"mandatory choice with one case filled", []string{"(*tree.sharedEntryAttributes).validateMandatory", "(*tree.sharedEntryAttributes).validateMandatoryWithKeys"}, []pv{{[]string{"cons", "mc", "other"}, str("o")}, {[]string{"cons", "mc", "x1"}, str("x")}}, true, ""},
 		{"mandatory choice with the other case filled", []string{"(*tree.sharedEntryAttributes).validateMandatory", "(*tree.sharedEntryAttributes).validateMandatoryWithKeys"}, []pv{{[]string{"cons", "mc", "x2"}, str("x")}}, true, ""},
 		{"mandatory choice with no case filled", []string{"(*tree.sharedEntryAttributes).validateMandatory", "(*tree.sharedEntryAttributes).validateMandatoryWithKeys"}, []pv{{[]string{"cons", "mc", "other"}, str("o")}}, false, ""},
